@@ -68,7 +68,13 @@ class Bucket:
             self.reset()
             return
         # the source code of the file changed, we need to reload
-        checksum = pickle.load(f)
+        try:
+            checksum = pickle.load(f)
+        except Exception:
+            # a truncated or damaged entry: pickle raises EOFError,
+            # UnpicklingError, AttributeError, ImportError, IndexError, ...
+            self.reset()
+            return
         if self.checksum != checksum:
             self.reset()
             return
